@@ -53,7 +53,7 @@ def gen_plan(rng, index, tier):
     cfg["settings"]["trackAssems"] = rng.random() < 0.7  # (without a pool system in the blueprint: the default pool)
     kinds = ["c_remove", "g_add", "g_add", "g_insert", "g_remove", "g_removeAll", "g_setChildren", "a_remove", "a_add", "a_insert", "a_reorder", "a_sort", "a_removeAll", "a_setChildren", "b_remove", "b_add", "b_replace", "copy", "pickle", "detach_copy"]
     if cfg["rejected"]:
-        kinds += ["x_remove_nonchild", "x_add_present"]
+        kinds += ["x_remove_nonchild", "x_add_present", "x_core_add_same_name"]
     for _ in range(rng.randint(10, 70)):
         steps.append({"op": rng.choice(kinds), "a": rng.randrange(10**6), "b": rng.randrange(10**6), "c": rng.randrange(10**6)})
     return {"config": cfg, "steps": steps}
@@ -565,6 +565,24 @@ class Universe:
                 self.refused += 1
                 return False
             self.fail("C01.rejected", f"step {k}: remove of a non-child was accepted", op=op)
+            return False
+        if op == "x_core_add_same_name":
+            # a copy of an assembly of the core (it carries the same name) offered to the core at a free place
+            core = self.r.core
+            ch = self.h[id(core)]
+            if not self.kids[ch]:
+                return False
+            src = O[self.pick(self.kids[ch], st["a"])]
+            cp = copy.deepcopy(src)
+            n_before = [id(x) for x in list(core)]
+            try:
+                core.add(cp, core.spatialGrid[9, 0 if str(core.geomType).startswith("hex") else 9, 0])
+            except Exception:  # noqa: BLE001
+                self.refused += 1
+                if [id(x) for x in list(core)] != n_before or cp.parent is not None:
+                    self.fail("C01.rejected", f"step {k}: the core refused a second assembly named {src.getName()}, but lists it among its children (parent of the refused copy: {cp.parent})", op=op)
+                return False
+            self.fail("C01.rejected", f"step {k}: a second assembly named {src.getName()} was accepted by the core", op=op)
             return False
         if op == "x_add_present":
             ps = [hd for hd in self.generic if self.kids[hd]]
